@@ -153,6 +153,7 @@ fn check<C: Pv>(c: &Case) -> Report {
         recompose: c.prog.recompose_npo,
         debug_lookups: false,
         poseidon2: None,
+        poseidon1: None,
     };
     let mixed = connects.iter().any(|(a, b)| a != b);
     let mut rep = Report::pass()
